@@ -118,12 +118,17 @@ func genSeqPlan(prop string, seed uint64, thorough bool) *Plan {
 			case "C04":
 				return [][]string{{"HLEN", "big"}, {"HKEYS", "big"}, {"HGETALL", "big"}, {"HEXISTS", "big", name(g.r.IntN(8))}, {"HVALS", "big"}}[g.r.IntN(5)]
 			case "C05":
-				return [][]string{{"SCARD", "big"}, {"SMEMBERS", "big"}, {"SISMEMBER", "big", name(g.r.IntN(8))}}[g.r.IntN(3)]
+				// (set algebra walks the big set's table, also while it is being shrunk)
+				return [][]string{{"SCARD", "big"}, {"SMEMBERS", "big"}, {"SISMEMBER", "big", name(g.r.IntN(8))},
+					{"SINTER", "big", "other"}, {"SINTERSTORE", "dst", "big", "other"}, {"SDIFF", "big", "other"}, {"SUNION", "other", "big"}, {"SINTERCARD", "2", "big", "other"}}[g.r.IntN(8)]
 			}
 			return [][]string{{"DBSIZE"}, {"KEYS", "*"}, {"EXISTS", name(g.r.IntN(8))}, {"RANDOMKEY"}}[g.r.IntN(4)]
 		}
 		keep := 3 + g.r.IntN(8)
 		size := keep + []int{10, 20, 40}[g.r.IntN(3)]
+		if prop == "C05" {
+			add([]string{"SADD", "other", name(0), name(2), name(4), name(size), name(size + 1), "zz"})
+		}
 		for i := 0; i < size; i += 20 {
 			add(mk(i, min(i+20, size), false))
 		}
@@ -135,7 +140,7 @@ func genSeqPlan(prop string, seed uint64, thorough bool) *Plan {
 		for i := 0; i < cycles; i++ {
 			add(mk(size, size+2, false))
 			add(mk(size, size+2, true))
-			if g.chance(25) {
+			if g.chance(12) {
 				add(read())
 			}
 		}
